@@ -286,6 +286,9 @@ func (e *Engine) AddSpecFile(sf *SpecFile) error {
 		e.contracts[c.FullKey] = c
 	}
 	for _, s := range sf.SpecFuncs {
+		if old := e.specFuncs[s.PkgPath+"."+s.Name]; old != nil && old != s {
+			return fmt.Errorf("%s: spec func %s is defined twice in package %s", sf.Path, s.Name, s.PkgPath)
+		}
 		e.specFuncs[s.PkgPath+"."+s.Name] = s
 		if sf.PkgPath == "" || strings.HasPrefix(s.Name, "g_") {
 			e.specFuncs["."+s.Name] = s
